@@ -79,8 +79,13 @@ def provisional_sources(repo):
                             resets.append(n)
                 if sets and resets:
                     safe = all(_in_finally(r, fi.node) for r in resets)
+                    # completeness: no call may be made between the guard test and the first marker-set statement
+                    first_set = min(x.lineno for x in sets)
+                    bypass = [c for c in ast.walk(fi.node) if isinstance(c, ast.Call) and st.lineno < c.lineno < first_set
+                              and not any(c is y for y in ast.walk(st.test))
+                              and unparse(c.func) not in ('isinstance', 'type', 'len', 'hasattr', 'getattr')]
                     out.append({'fi': fi, 'marker': mk, 'sentinel': unparse(st.body[0].value) if st.body[0].value else 'None',
-                                'reset_safe': safe, 'resets': resets, 'sets': sets})
+                                'reset_safe': safe, 'resets': resets, 'sets': sets, 'bypass': bypass})
     return out
 
 
